@@ -86,6 +86,7 @@ impl Relaxation for WRlx<'_> {
     }
     fn fast_upper_bound(&self, st: &TS) -> isize {
         match self.t.rub_slack { None => isize::MAX, Some(k) => {
+            let k = if self.t.rub_even_only && st.depth % 2 == 1 { k + 6 } else { k };
             let mut b = isize::MIN;
             for s in 0..NS { if st.set >> s & 1 == 1 { if let Some(h) = self.t.hstar(st.depth, s) { b = b.max(h + k); } } }
             b } }
